@@ -54,6 +54,10 @@ var strPlain = []string{
 }
 
 var strEmbedded = []string{
+	// two adjacent documents whose extracted strings need unescaping (a decoder that hands out its
+	// scratch buffer instead of a copy shows up in the late observation)
+	`{"message":"line\nbreak \"q\" one","level":"w\u0041rn","a":"\tfirst","b":{"c":"c\\1","d":"d\/1"}}`,
+	`{"message":"SECOND\nSECOND \"Q\"","level":"E\u0052ROR","a":"\tsecond!","b":{"c":"C\\2","d":"D\/2"}}`,
 	`{"a":1}`, `{"a":{"b":"x"},"b":{"c":1,"d":[1,2]},"message":"m","level":"warn"}`, `{"a":`, `{"a":"x`, `[1,`, `{"a":1}}`,
 	`{"a":1} trailing`, `{"a":1e999}`, `{"a":"\ud800"}`, `{"a":tru`, `{"\u0061":1,"a":2}`, `{}`, `[]`, `null`, `"str"`, `123`, `-`, `1e`,
 	`{"a":{"b":{"c":{"d":{"e":{"f":{}}}}}}}`, `[[[[[[[[[[1]]]]]]]]]]`, `{"a":{"b":[{"c":1},{"d":{"e":null}}]},"level":"error"}`,
